@@ -528,7 +528,7 @@ def child_history(desc: dict) -> dict:
                 ev["skip"] = True
                 return ev
             try:
-                objs[op["id"]] = copy.deepcopy(objs[op["src"]])
+                objs[op["id"]] = copy.copy(objs[op["src"]]) if op.get("shallow") else copy.deepcopy(objs[op["src"]])
                 # no assumption about what a copy carries over: the model of the new object is
                 # what the object itself reports right after the copy
                 rb = _read_obj(objs[op["id"]])
@@ -799,6 +799,11 @@ def judge(ctx: C10Ctx, desc: dict, result: dict) -> list:
         if ev.get("filename") is not None and ev.get("out") == "exc" and expect.get("out") == "exc" \
                 and ev["exc"][0] == expect["exc"][0]:
             continue  # SyntaxError messages legitimately quote the file name passed by the caller
+        if op.get("depth") and ev.get("out") == "exc" and ev["exc"][0] == "RecursionError" and expect.get("out") == "ok":
+            # stack exhaustion fault: the caller left too little stack for this conversion.  No text was
+            # produced, so nothing can differ (like an injected MemoryError); any text that IS produced
+            # from a deep stack must still be the reference text, and the next conversion is checked.
+            continue
         if not same_outcome(ev, expect):
             if ev.get("out") == "ok" and expect.get("out") == "ok":
                 cls = "text-differs"
@@ -914,7 +919,7 @@ def gen_history(seed: int, ctx: C10Ctx, knobs: dict | None = None) -> dict:
                 src_o = rng.choice(live)
                 live.append(nid)
                 models[nid] = dict(models[src_o])
-                ops.append({"op": "copy", "id": nid, "src": src_o})
+                ops.append({"op": "copy", "id": nid, "src": src_o, "shallow": rng.random() < 0.5})
             else:
                 ops.append({"op": "delattr", "obj": rng.choice(live), "name": rng.choice(OPTION_NAMES)})
             continue
@@ -1001,8 +1006,8 @@ def gen_history(seed: int, ctx: C10Ctx, knobs: dict | None = None) -> dict:
         op.update(pick_prog())
         if rng.random() < filename_rate:
             op["filename"] = rng.choice(["x.py", "/abs/dir/mod.py", "<stdin>", ""])
-        if rng.random() < depth_rate and op.get("prog", "").startswith("short:"):
-            op["depth"] = rng.choice([40, 150, 250])
+        if rng.random() < depth_rate:
+            op["depth"] = rng.choice([40, 150, 250]) if op.get("prog", "").startswith("short:") else rng.choice([150, 400, 600, 750, 850, 920])
         elif rng.random() < how_rate:
             op["how"] = rng.choice(["thread", "main_namespace"])
         ops.append(op)
@@ -1114,12 +1119,16 @@ def probes_of(desc: dict, result: dict) -> dict:
                 last_state_restore = None
             if natural_fail and ev.get("out") == "ok":
                 hit("conv_after_natural_failure")
+            if op.get("depth") and ev.get("out") == "ok":
+                hit("conv_ok_from_deep_stack")
             if aborted:
                 hit("conv_after_injected_abort")
             if ev.get("out") == "exc":
                 natural_fail = True
                 if ev["exc"][0] == "RecursionError":
                     hit("natural_recursion_error")
+                    if op.get("depth"):
+                        hit("stack_exhausted_by_caller_depth")
             if op.get("obj") in failed_set_objs:
                 hit("conv_with_object_after_failed_set")
             if op.get("prog") in ("short:for_break", "short:for_return", "short:sentinel", "file:t_break",
